@@ -45,11 +45,12 @@ P = {
             "the history contains an accepted update that changes the definition of an existing rule; distinct by hash of the generated input",
     "anchors": ["internal/rules/repository_impl.go", "internal/x/radixtree/tree.go",
                 "internal/rules/ruleset_processor_impl.go", "internal/rules/rule_impl.go"],
-    "trusted": ["tree.go is transcribed function by function into C06/Tree.v (addNode, splitCommonPrefix, delNode, deleteChild, "
-                "findNode; executable) and compared with the implementation on every generated history; that this transcription "
-                "refines the abstract index (pattern -> values, flag) the main theorems are stated over is now PROVED for the tree "
-                "as it is (all_fix), for every history (C06_tree_refines_index): no longer trusted.  The abstract index is still "
-                "evaluated next to the tree on every run (a redundant check since the proof)",
+    "trusted": ["tree.go is transcribed BY HAND, function by function, into C06/Tree.v (addNode, splitCommonPrefix, delNode, "
+                "deleteChild, findNode; executable): that the transcription is the Go code is checked by evaluation on every "
+                "generated history (accept/reject/crash and lookups after every prefix), not proved.  (The step from the "
+                "transcription to the abstract index the main theorems are stated over IS proved, for the tree as it is and every "
+                "history: C06_tree_refines_index; the abstract index is still evaluated next to the tree on every run.  C06/Pat.v, a "
+                "copy of Radix/Spec.v's expression parser, is proved to be the same function: TreeRefine.parse_expr_cv.)",
                 "route conditions are the real methodMatcher (independent of key names and captured values); captures/key names "
                 "delivered to conditions are property C03",
                 "rule hash modelled by its pre-image (the whole definition); object identity of rules and routes (pointer comparison "
